@@ -216,7 +216,9 @@ func (s *QSeq) AppendColumns(a ...[]alphabet.QLetter) error {
 		}
 	}
 
-	s.Seq = append(s.Seq, a...)
+	for _, c := range a {
+		s.Seq = append(s.Seq, append([]alphabet.QLetter(nil), c...))
+	}
 
 	return nil
 }
